@@ -33,6 +33,7 @@ import (
 
 	storagerpc "github.com/lindb/lindb/app/storage/rpc"
 	"github.com/lindb/lindb/coordinator/storage"
+	"github.com/lindb/lindb/internal/verifhook"
 	"github.com/lindb/lindb/models"
 	"github.com/lindb/lindb/pkg/option"
 	"github.com/lindb/lindb/pkg/queue"
@@ -337,6 +338,7 @@ type peer struct {
 	stopped bool                // the group is not registered on the leader (never added, or stopped by IsExpire)
 	born    bool                // the group's directory exists on the leader
 
+	lostWake     bool // an online notification was delivered after the loop marked itself suspended and the loop stayed parked
 	putFailOnce  bool // the next Put on this follower's queue fails
 	putDisturbed bool // a follower Put fault left the channel ready and out of step (until its next handshake)
 
@@ -364,6 +366,11 @@ type world struct {
 	gone   bool
 	cancel context.CancelFunc
 
+	// the online notification that is to land between the loop's isSuspend CAS and its `<-r.suspend`
+	winPeer  *peer
+	winFired bool
+	winDone  chan struct{} // closed when the handler (handleNodeStateChangeEvent) has returned
+
 	// per-step instrumentation
 	fault                             string
 	sendTried, sendFailed, recvFailed bool
@@ -383,6 +390,13 @@ type world struct {
 }
 
 func (w *world) leaderDir() string { return filepath.Join(w.dir, "leader") }
+
+func (p *peer) idx() int {
+	if p.w.peers[0] == p {
+		return 0
+	}
+	return 1
+}
 
 func (w *world) peerByID(id models.NodeID) *peer {
 	for _, p := range w.peers {
@@ -611,6 +625,7 @@ type peerObs struct {
 	fAck, fApp     int64
 	chanSt, stream string
 	synced, susp   bool
+	parked         bool
 	stopped        bool
 }
 
@@ -669,9 +684,10 @@ func (w *world) observe() obs {
 		} else {
 			po.susp = p.pending != nil
 		}
+		po.parked = p.pending != nil
 		po.synced = po.chanSt == "ready" && po.stream == "up"
-		parts = append(parts, fmt.Sprintf("%s: c=%d g=%d F=%s %s %s live=%s susp=%s stop=%s born=%s", strings.ToUpper(p.name), po.cons, po.gack, fs,
-			po.chanSt, po.stream, b01(p.live), b01(po.susp), b01(p.stopped), b01(p.born)))
+		parts = append(parts, fmt.Sprintf("%s: c=%d g=%d F=%s %s %s live=%s susp=%s park=%s stop=%s born=%s", strings.ToUpper(p.name), po.cons, po.gack, fs,
+			po.chanSt, po.stream, b01(p.live), b01(po.susp), b01(po.parked), b01(p.stopped), b01(p.born)))
 	}
 	parts = append(parts, fmt.Sprintf("imgs=%d gone=%s", len(w.imgs), b01(w.gone)))
 	o.line = strings.Join(parts, " ")
@@ -711,6 +727,65 @@ func (w *world) waitStep(p *peer, done chan string) (string, error) {
 			return "hang", errors.New("replica step neither finished nor parked")
 		}
 		time.Sleep(20 * time.Microsecond)
+	}
+}
+
+// windowHook runs on the replica loop's goroutine at the yield point between
+// `isSuspend.CompareAndSwap(false, true)` and `<-r.suspend`.
+func (w *world) windowHook() {
+	p := w.winPeer
+	if p == nil || w.winFired {
+		return
+	}
+	w.winFired = true
+	p.live = true
+	fn := w.sm.fns[p.id]
+	done := w.winDone
+	go func() {
+		defer close(done)
+		if fn != nil {
+			fn(models.NodeOnline)
+		}
+	}()
+	// let the handler do its CAS and reach its send (a blocking send now waits for the loop's receive,
+	// a non-blocking one has already given up and the handler has returned)
+	deadline := time.Now().Add(5 * time.Second)
+	for time.Now().Before(deadline) {
+		select {
+		case <-done:
+			return
+		default:
+		}
+		if _, _, susp, ok := replica.VerifC08ReplicatorInfo(w.lp, p.id); ok && !susp {
+			time.Sleep(time.Millisecond)
+			return
+		}
+		time.Sleep(20 * time.Microsecond)
+	}
+}
+
+// waitWindowStep waits for a replica call whose suspend window received the online notification.
+// It only judges parked / not parked: the call finishing (released) or, after the handler has
+// returned, still not finished a generous while later (the wake-up was lost).
+func (w *world) waitWindowStep(p *peer, done chan string) (string, error) {
+	select {
+	case r := <-done:
+		if !w.winFired {
+			return "hang", errors.New("the suspend window was not reached")
+		}
+		return w.label(r), nil
+	case <-time.After(30 * time.Second):
+		return "hang", errors.New("replica step with an online notification in its suspend window neither finished nor lost its wake-up")
+	case <-w.winDone:
+	}
+	// the handler has returned: with a blocking send the loop holds the token and finishes
+	select {
+	case r := <-done:
+		return w.label(r), nil
+	case <-time.After(3 * time.Second):
+		p.pending = done
+		p.lostWake = true
+		return "parked", nil
 	}
 }
 
@@ -771,7 +846,7 @@ func (w *world) apply(op string, pre obs) (string, *peer, error) {
 	}
 	var p *peer
 	switch ws[0] {
-	case "step", "online":
+	case "step", "online", "steponl":
 		if len(ws) != 3 || !isFault(ws[2]) {
 			return "bad-op", nil, nil
 		}
@@ -796,7 +871,7 @@ func (w *world) apply(op string, pre obs) (string, *peer, error) {
 	default:
 		return "bad-op", nil, nil
 	}
-	if (ws[0] == "step" || ws[0] == "online" || ws[0] == "frestart" || ws[0] == "flose" || ws[0] == "offline" || ws[0] == "join") && p == nil {
+	if (ws[0] == "step" || ws[0] == "online" || ws[0] == "steponl" || ws[0] == "frestart" || ws[0] == "flose" || ws[0] == "offline" || ws[0] == "join") && p == nil {
 		return "bad-op", nil, nil
 	}
 	if ws[0] == "append" && ws[1] != "-" {
@@ -860,6 +935,18 @@ func (w *world) apply(op string, pre obs) (string, *peer, error) {
 		}
 		p.pending = nil
 		return "idle", p, w.join(p)
+	case "steponl":
+		if !p.stopped && p.pending == nil && pre.p[p.idx()].chanSt != "ready" && !p.live {
+			// the replica call finds the follower offline and marks itself suspended; the hook at the yield
+			// point between the CAS and the receive delivers NodeOnline from another goroutine
+			w.resetStepFlags(ws[2])
+			w.winPeer, w.winFired, w.winDone = p, false, make(chan struct{})
+			done := w.startStep(p)
+			out, err := w.waitWindowStep(p, done)
+			w.winPeer = nil
+			return out, p, err
+		}
+		fallthrough
 	case "online":
 		p.live = true
 		if p.stopped {
@@ -1076,6 +1163,10 @@ func (w *world) check(c *core.Ctx, op, out string, ep *peer, pre, post obs) {
 		if mine && out == "ignored" {
 			fail("ignored-message", fmt.Sprintf("%q: leader could not read a consumed message (consumed %d, queue ack %d, appended %d)", op, po.cons, post.lAck, post.lApp))
 		}
+		// (4b) an online notification delivered after the loop marked itself suspended is never lost
+		if mine && p.lostWake && strings.HasPrefix(op, "steponl") {
+			fail("online-notification-lost", fmt.Sprintf("%q: NodeOnline was delivered between the loop's isSuspend CAS and its receive on r.suspend; the handler returned, the loop is still parked (isSuspend=%v) and nothing will wake it", op, po.susp))
+		}
 		// (5) the leader never discards a position this follower has not acknowledged
 		if !restart && po.stopped && !pr.stopped && post.lApp > po.gack {
 			fail("discarded-with-unacked", fmt.Sprintf("after %q the follower's group and replicator were stopped with appended %d > group ack %d (follower appended %d)", op, post.lApp, po.gack, po.fApp))
@@ -1156,22 +1247,30 @@ func genCase(rng *rand.Rand, tier string, idx int) []string {
 				f = faults[1+rng.Intn(len(faults)-1)]
 			}
 			ops = append(ops, "online "+who()+" "+f)
-		case r < 96:
+		case r < 94:
 			ops = append(ops, "gc")
+		case r < 96:
+			// a failed call, the follower goes away, and its online notification lands inside the
+			// suspend window of the next call
+			x := who()
+			if rng.Intn(3) > 0 {
+				ops = append(ops, "step "+x+" send", "offline "+x)
+			}
+			ops = append(ops, "steponl "+x+" none")
 		case r < 98:
 			ops = append(ops, "join "+who())
 		default:
 			ops = append(ops, "expire")
 		}
 		if malformed && rng.Intn(6) == 0 {
-			bad := []string{"step a bogus", "step c none", "append zz", "append", "lrestore x", "lrestore -1", "online a", "restart", "append A1", "step none", "flose", "expire now", "join", "join c", "step a putt"}
+			bad := []string{"step a bogus", "step c none", "append zz", "append", "lrestore x", "lrestore -1", "online a", "restart", "append A1", "step none", "flose", "expire now", "join", "join c", "step a putt", "steponl a", "steponl c none"}
 			ops = append(ops, bad[rng.Intn(len(bad))])
 		}
 	}
 	return ops
 }
 
-// fixed histories replayed on every run (cases 0..7)
+// fixed histories replayed on every run (cases 0..8)
 var fixedCases = [][]string{
 	// 0: known finding: the leader loses its tail and re-appends beyond the follower before the handshake
 	{"append a0", "append a1", "append a2", "append a3", "step a none", "step a none", "step a none", "step a none",
@@ -1200,9 +1299,22 @@ var fixedCases = [][]string{
 	// 7: the follower's Put fails (storage fault on the follower), the answer arrives; later the stream breaks
 	{"append a0", "step a none", "append a1", "step a put", "append a2", "step a none", "frestart a", "append a3", "step a none",
 		"step a none", "step a none", "step a none", "step a none"},
+	// 8: the online notification lands between the loop's isSuspend CAS and its receive on r.suspend
+	{"append a0", "step a none", "append a1", "offline a", "steponl a none", "append a2", "step a none",
+		"step a send", "offline a", "step a none", "online a none", "offline a", "steponl a none"},
 }
 
+var curWorld *world
+
 func (area) Run(c *core.Ctx) error {
+	verifhook.Set(func(id string) {
+		if id == "c08-suspend-marked" {
+			if w := curWorld; w != nil {
+				w.windowHook()
+			}
+		}
+	})
+	defer verifhook.Set(nil)
 	for i := 0; i < c.N; i++ {
 		if !c.Want(i) {
 			continue
@@ -1226,6 +1338,8 @@ func runCase(c *core.Ctx, i int, ops []string) (err error) {
 	if err != nil {
 		return err
 	}
+	curWorld = w
+	defer func() { curWorld = nil }()
 	defer w.destroy()
 	c.Op("reset", "ok "+w.observe().line)
 	acked, faulted := false, false
@@ -1285,12 +1399,12 @@ func runCase(c *core.Ctx, i int, ops []string) (err error) {
 		// a parked loop whose replicator was stopped cannot be resumed (it would touch a closed group)
 		stop := false
 		for _, p := range w.peers {
-			if p.stopped && p.pending != nil {
-				stop = true
+			if (p.stopped || p.lostWake) && p.pending != nil {
+				stop = true // (a loop that lost its wake-up cannot be resumed either)
 			}
 		}
 		if stop {
-			c.Branch("ended/parked-loop-stopped")
+			c.Branch("ended/parked-loop-not-resumable")
 			break
 		}
 	}
